@@ -17,6 +17,10 @@ pub struct C08;
 pub struct C08Case {
     pub cfg: BuilderConfig,
     pub ops: Vec<Op>,
+    /// before the operations: 1 = the recorded header digest is corrupted (as in a file with a
+    /// stale digest), 2 = the signature header is replaced by that of another package
+    #[serde(default)]
+    pub stale_sig: u8,
 }
 
 /// decompress with the decoder crates directly (not through rpm's decompress_stream)
@@ -118,7 +122,7 @@ impl Property for C08 {
         vec!["decoders (flate2, zstd, liblzma, bzip2) and RustCrypto hashes are trusted; they are called directly, not through the crate under test".into()]
     }
     fn required_labels(&self, _t: Tier) -> Vec<&'static str> {
-        vec!["one-source-path-rewritten", "above-threshold-gzip", "above-threshold-zstd", "above-threshold-xz", "above-threshold-bzip2", "with-ops", "comp-none"]
+        vec!["one-source-path-rewritten", "resigned-stale-signature-header", "above-threshold-gzip", "above-threshold-zstd", "above-threshold-xz", "above-threshold-bzip2", "with-ops", "comp-none"]
     }
     fn phases(&self, tier: Tier) -> Vec<Phase<C08Case>> {
         vec![
@@ -131,7 +135,7 @@ impl Property for C08 {
                             if cfg.signer == Some(1) {
                                 cfg.signer = Some(0);
                             }
-                            C08Case { cfg, ops }
+                            C08Case { cfg, ops, stale_sig: 0 }
                         })
                         .boxed()
                 }),
@@ -140,12 +144,12 @@ impl Property for C08 {
                 name: "all-levels-small",
                 cases: tier.pick(1_500, 30_000),
                 strat: Arc::new(|| {
-                    (config_any_reuse(CfgParams { max_files: 5, sizes: size_small(), comp: comp_any(true), sign_prob: 0.1, file_kinds: true, force_large_prob: 0.1, rich_meta: true }), proptest::collection::vec(op_cheap(), 0..3))
-                        .prop_map(|(mut cfg, ops)| {
+                    (config_any_reuse(CfgParams { max_files: 5, sizes: size_small(), comp: comp_any(true), sign_prob: 0.1, file_kinds: true, force_large_prob: 0.1, rich_meta: true }), proptest::collection::vec(op_cheap(), 0..3), prop_oneof![4 => Just(0u8), 1 => Just(1u8), 1 => Just(2u8)])
+                        .prop_map(|(mut cfg, ops, stale_sig)| {
                             if cfg.signer == Some(1) {
                                 cfg.signer = Some(2);
                             }
-                            C08Case { cfg, ops }
+                            C08Case { cfg, ops, stale_sig }
                         })
                         .boxed()
                 }),
@@ -167,6 +171,9 @@ impl Property for C08 {
         if cfg.reuse_source {
             o.label("one-source-path-rewritten");
         }
+        if case.stale_sig != 0 && case.ops.iter().any(|x| !matches!(x, Op::Reparse)) {
+            o.label("resigned-stale-signature-header");
+        }
         if !cfg.files.is_empty() && cfg.compression.kind != 1 {
             o.nontrivial_key(fnv1a(serde_json::to_string(case).unwrap_or_default().as_bytes()));
         }
@@ -174,10 +181,34 @@ impl Property for C08 {
             let b = build_and_write(cfg)?;
             check_digests(&b.bytes, &b.files, "after build")?;
             let mut pkg = b.pkg;
+            // a stale signature header stays stale until the next sign/clear rewrites it
+            let mut stale = case.stale_sig != 0;
+            match case.stale_sig {
+                1 => {
+                    let mut bytes = b.bytes.clone();
+                    let seg = fmt::decode(&bytes).map_err(|e| ("unsegmentable".to_string(), e))?;
+                    if let Some(e) = seg.sig.find(tags::SIG_SHA256) {
+                        let at = seg.sig.store_start + e.offset as usize + 5;
+                        bytes[at] = if bytes[at] == b'0' { b'1' } else { b'0' };
+                    }
+                    pkg = parse_pkg(&bytes)?;
+                }
+                2 => {
+                    let other = build_and_write(&BuilderConfig::minimal("another-package"))?;
+                    pkg.metadata.signature = other.pkg.metadata.signature.clone();
+                }
+                _ => {}
+            }
             for (i, op) in case.ops.iter().enumerate() {
                 apply_op(&mut pkg, op)?;
+                if !matches!(op, Op::Reparse) {
+                    stale = false;
+                }
+                if stale {
+                    continue;
+                }
                 let bytes = write_pkg(&pkg)?;
-                check_digests(&bytes, &b.files, &format!("after op #{i} {op:?}"))?;
+                check_digests(&bytes, &b.files, &format!("after op #{i} {op:?}{}", if case.stale_sig != 0 { " on a package whose signature header was stale" } else { "" }))?;
             }
             Ok(())
         })();
